@@ -187,7 +187,7 @@ type exec struct {
 	steps    int
 	tagOf    map[ast.Expr]*ast.SwitchStmt
 	caseOf   map[*ast.CaseClause]ast.Stmt
-	rangeX   map[ast.Expr]*ast.RangeStmt  // range operand -> statement
+	rangeX   map[ast.Expr]*ast.RangeStmt   // range operand -> statement
 	rangeVar map[*ast.Ident]*ast.RangeStmt // key / value identifier -> statement
 	scanned  map[*ast.BlockStmt]bool
 	fl       *flow.Engine
@@ -1172,6 +1172,27 @@ func (x *exec) eval(st *State, fr *frame, e ast.Expr, k func(*State, *Val)) {
 						k(st, a)
 						return
 					}
+					if a.K == VSlice {
+						// (x[p:q])[lo:hi] = x[p+lo : p+hi]; an open upper bound keeps q
+						base := a.Y
+						nlo, nhi := base, a.Z
+						if lo != nil {
+							if base != nil {
+								nlo = simplifyArith(&Val{K: VBin, Op: token.ADD, X: base, Y: lo})
+							} else {
+								nlo = lo
+							}
+						}
+						if hi != nil {
+							if base != nil {
+								nhi = simplifyArith(&Val{K: VBin, Op: token.ADD, X: base, Y: hi})
+							} else {
+								nhi = hi
+							}
+						}
+						k(st, &Val{K: VSlice, X: a.X, Y: nlo, Z: nhi, T: x.info.TypeOf(e)})
+						return
+					}
 					k(st, &Val{K: VSlice, X: a, Y: lo, Z: hi, T: x.info.TypeOf(e)})
 				})
 			})
@@ -1784,7 +1805,10 @@ func (x *exec) builtin(st *State, fr *frame, call *ast.CallExpr, name string, ar
 		st.seq[call.Lparen]++
 		r := x.resultLeaf(st, call, nil, 0, types.Typ[types.Int])
 		ev.Results = []*Val{r}
-		st.facts = append(st.facts[:len(st.facts):len(st.facts)], Fact{A: VCmp(token.GEQ, r, VInt(0)), V: true, Pos: call.Pos()})
+		st.facts = append(st.facts[:len(st.facts):len(st.facts)], Fact{A: VCmp(token.GEQ, r, VInt(0)), V: true})
+		if len(args) == 2 && args[0] != nil && args[1] != nil {
+			st.facts = append(st.facts, Fact{A: VCmp(token.LEQ, r, VLenOf(args[0])), V: true}, Fact{A: VCmp(token.LEQ, r, VLenOf(args[1])), V: true})
+		}
 		st.epoch++
 		x.afterCall(st, ev)
 		k(st, ev.Results)
@@ -1869,6 +1893,19 @@ func (x *exec) opaque(st *State, fr *frame, call *ast.CallExpr, f *types.Func, f
 	if f != nil && cfgq.NR(x.c.Program).Has(f) {
 		x.finish(st, ExitPanic, nil, call.Pos())
 		return
+	}
+	// io.Reader / io.Writer / io.ReaderAt contract (trusted): an operation that
+	// is handed a byte slice first and returns (int, error) reports a count
+	// between 0 and the length of that slice
+	if len(ev.Results) == 2 && len(args) >= 1 && args[0] != nil && isIntegerT(rt[0]) && cfgq.IsErrorType(rt[1]) {
+		if sl, ok := x.info.TypeOf(call.Args[0]).Underlying().(*types.Slice); ok {
+			if b, ok := sl.Elem().Underlying().(*types.Basic); ok && b.Kind() == types.Uint8 {
+				fs := st.facts[:len(st.facts):len(st.facts)]
+				fs = append(fs, Fact{A: VCmp(token.GEQ, ev.Results[0], VInt(0)), V: true})
+				fs = append(fs, Fact{A: VCmp(token.LEQ, ev.Results[0], VLenOf(args[0])), V: true})
+				st.facts = fs
+			}
+		}
 	}
 	x.afterCall(st, ev)
 	k(st, ev.Results)
